@@ -384,8 +384,16 @@ class ConsumerMdib(mdibbase.MdibBase):
                 old_state_container = src.descriptor_handle.get_one(state_container.DescriptorHandle, allow_none=True)
                 if old_state_container is not None:
                     if self._has_new_state_usable_state_version(old_state_container, state_container, report_type):
-                        old_state_container.update_from_other_container(state_container)
-                        src.update_object(old_state_container)
+                        if old_state_container.NODETYPE != state_container.NODETYPE:
+                            # the descriptor was replaced by one of another type and the description modification
+                            # reports got lost: a state can not be updated from a state of a different type
+                            src.remove_object(old_state_container)
+                            self._set_descriptor_container_reference(state_container)
+                            src.add_object(state_container)
+                            old_state_container = state_container
+                        else:
+                            old_state_container.update_from_other_container(state_container)
+                            src.update_object(old_state_container)
                         states_by_handle[old_state_container.DescriptorHandle] = old_state_container
                 else:
                     self._logger.error(  # noqa: PLE1205
@@ -722,6 +730,15 @@ class ConsumerMdib(mdibbase.MdibBase):
                     modification_type = report_part.ModificationType
                     if modification_type == dmt.CREATE:
                         for descriptor_container in report_part.Descriptor:
+                            if self.descriptions.handle.get_one(descriptor_container.Handle, allow_none=True) is not None:
+                                # The handle is already known: the report about the deletion of the old descriptor
+                                # got lost, or this report is a duplicate. Replace the outdated descriptor (and its
+                                # states), otherwise the unique index would reject the new one.
+                                self._logger.warning(  # noqa: PLE1205
+                                    'process_incoming_descriptors: created descriptor "{}" already exists, replacing it',
+                                    descriptor_container.Handle,
+                                )
+                                self.rm_descriptor_by_handle(descriptor_container.Handle)
                             self.descriptions.add_object(descriptor_container)
                             self._logger.debug(  # noqa: PLE1205
                                 'process_incoming_descriptors: created description "{}" (parent="{}")',
